@@ -170,9 +170,10 @@ def call_native(c, reg, combo: Dict[str, Any]) -> Dict[str, Any]:
             same = (res == exp) and (type(res) is type(exp) or isinstance(res, (bool, int)) and isinstance(exp, (bool, int)))
             if not same:
                 ok, why = False, f"result {res!r} differs from contract value {exp!r}"
-        if ok and c.ensures:
-            if not bool(C.eval_clause(c.ensures, reg, env)):
-                ok, why = False, f"post-condition `{c.ensures}` is false for result {res!r}"
+        for cname, ctext in c.ensures_items():
+            if ok and not bool(C.eval_clause(ctext, reg, env)):
+                ok, why = False, f"post-condition {cname + ': ' if cname else ''}`{ctext}` is false for result {res!r}"
+                out["failed_clause"] = cname
         # a raises-clause also says: under that condition the exception MUST be raised
         for exc_name, cond in c.raises.items():
             if ok and bool(C.eval_clause(cond, reg, args)):
@@ -194,7 +195,14 @@ def stable_sig(c_key: str, oname: str) -> str:
     qualname + obligation name with the @L<line> part removed"""
     q = c_key.split("::")[-1]
     import re
-    return f"{q}:{re.sub(r'@L[0-9]+', '', oname)}"
+    return f"{q}:{re.sub(r'(#[0-9]+)?@L[0-9]+', '', oname)}"
+
+
+def shadow_sig(c, nat: Dict[str, Any]) -> str:
+    """same signature scheme as the proved tier, so one KNOWN_FINDINGS line covers both"""
+    if "exc" in nat:
+        return f"{c.qualname}:exc:{nat['exc']}"
+    return f"{c.qualname}:post" + (":" + nat["failed_clause"] if nat.get("failed_clause") else "")
 
 
 def run_prover(pid: str, seed: int, jobs: int = 16, only: Optional[str] = None) -> Dict[str, Any]:
@@ -344,7 +352,8 @@ def crosscheck(rep: Report, reg, c, items: List[Dict[str, Any]]):
         rep.case(key=("x", c.key, json.dumps(it["input"], sort_keys=True)), nontrivial=True,
                  sample={"function": c.qualname, "input": it["input"], "native": nat.get("result", nat.get("exc"))})
         if nat.get("ok") is False:
-            rep.violation(f"{c.qualname}:shadow", f"{c.qualname}({json.dumps(it['input'])[:200]}): {nat.get('why')}",
+            rep.violation(shadow_sig(c, nat),
+                          f"{c.qualname}({json.dumps(it['input'])[:200]}): {nat.get('why')}",
                           dict(function=c.key, replay=dict(function=c.native, args=it["input"]), native=nat))
             continue
         feas = [f for f in pred.get("feasible", []) if f["kind"] != "unknown"]
@@ -459,7 +468,7 @@ def shadow(rep: Report, c, reg, seed: int, n: int = 300, sig_override: Optional[
         rep.case(key=("s", c.key, json.dumps(combo, sort_keys=True)), nontrivial=True)
         if nat.get("ok") is False:
             bad += 1
-            rep.violation(sig_override or f"{c.qualname}:shadow",
+            rep.violation(sig_override or (shadow_sig(c, nat)),
                           f"{c.qualname}({json.dumps(combo)[:200]}): {nat.get('why')}",
                           dict(function=c.key, replay=dict(function=c.native, args=combo), native=nat))
     rep.section("shadow", **{c.qualname: len(combos)})
